@@ -2,6 +2,7 @@ package main
 
 import (
 	"fmt"
+	"go/ast"
 	"go/types"
 	"sort"
 	"strings"
@@ -55,7 +56,7 @@ var ownDiscipline = map[string]string{
 	"Conn.reqQueued": "mutex:Conn.reqLck",
 	"Conn.lastErr":   "mutex:Conn.lastErrLck",
 	"Conn.nextID":    "atomic", "Conn.openStreams": "atomic", "Conn.maxStreams": "atomic", "Conn.maxFrameSize": "atomic",
-	"Conn.encTableSize": "atomic", "Conn.goAway": "atomic", "Conn.unacks": "atomic", "Conn.closed": "atomic",
+	"Conn.encTableSize": "atomic", "Conn.goAway": "atomic", "Conn.unacks": "atomic", "Conn.closed": "atomic", "Conn.writeBounded": "atomic",
 	"Conn.sendLck": "sync", "Conn.reqLck": "sync", "Conn.bwLck": "sync", "Conn.lastErrLck": "sync",
 	"Conn.onDisconnect": "exempt:configuration callback set through SetOnDisconnect before the connection is used; not part of the interleavings the property quantifies over",
 	// pendingBody
@@ -627,6 +628,87 @@ func init() {
 	})
 }
 
+// ctxWaitsBounded: every wait for a request's Ctx gives the socket write in
+// progress a limited time first. That is what makes a socket write under the
+// Ctx tolerable: whoever needs the Ctx makes the write fail rather than wait
+// for the peer.
+func (p *Prog) ctxWaitsBounded() (bool, []string) {
+	if v, ok := p.memo["ctxWaitsBounded"]; ok {
+		x := v.([]interface{})
+		return x[0].(bool), x[1].([]string)
+	}
+	var why []string
+	fail := func(s string) { why = append(why, s) }
+	// (*Ctx).lock: TryLock -> return; conn != nil -> boundWrite; Lock
+	if fd := p.decl("(*Ctx).lock"); fd == nil {
+		fail("(*Ctx).lock no longer resolves")
+	} else {
+		l := fd.Body.List
+		ok := len(l) == 3
+		if ok {
+			i0, ok0 := l[0].(*ast.IfStmt)
+			i1, ok1 := l[1].(*ast.IfStmt)
+			ok = ok0 && ok1 && squash(p.text(i0.Cond)) == "ctx.lck.TryLock()" && len(i0.Body.List) == 1 && squash(p.text(i0.Body.List[0])) == "return" &&
+				i1.Init != nil && squash(p.text(i1.Init)) == "c:=ctx.conn.Load()" && squash(p.text(i1.Cond)) == "c!=nil" && len(i1.Body.List) == 1 && squash(p.text(i1.Body.List[0])) == "c.boundWrite()" && i1.Else == nil &&
+				squash(p.text(l[2])) == "ctx.lck.Lock()"
+		}
+		if !ok {
+			fail("(*Ctx).lock is no longer `if TryLock { return }; if c := conn; c != nil { c.boundWrite() }; Lock`: a wait for the Ctx no longer bounds the socket write its holder may be stuck in")
+		}
+	}
+	// nothing else blocks on Ctx.lck
+	for _, f := range p.allFuncs() {
+		if f.Pkg != p.SPkg || f.Blocks == nil || p.fname(f) == "(*Ctx).lock" {
+			continue
+		}
+		for _, b := range f.Blocks {
+			for _, in := range b.Instrs {
+				c, ok := in.(*ssa.Call)
+				if !ok || p.calleeName(c.Common()) != "(*sync.Mutex).Lock" || len(c.Call.Args) != 1 {
+					continue
+				}
+				if fa, ok := c.Call.Args[0].(*ssa.FieldAddr); ok {
+					if o, fl := p.fieldAddrName(fa); o == "Ctx" && fl == "lck" {
+						fail(p.fname(f) + " takes Ctx.lck directly at " + p.ipos(in) + ", without bounding the write its holder may be stuck in")
+					}
+				}
+			}
+		}
+	}
+	// boundWrite: a positive, bounded, constant grace on the socket
+	if fd := p.decl("(*Conn).boundWrite"); fd == nil {
+		fail("(*Conn).boundWrite no longer resolves")
+	} else {
+		dl, mark := -1, -1
+		for i, s := range fd.Body.List {
+			t := squash(p.text(s))
+			if t == "_=c.c.SetWriteDeadline(time.Now().Add(writeGrace))" {
+				dl = i
+			}
+			if t == "atomic.StoreInt32(&c.writeBounded,1)" {
+				mark = i
+			}
+		}
+		g, okg := p.pkgConst("writeGrace")
+		if dl < 0 || !okg || g <= 0 || g > int64(60*1e9) {
+			fail("boundWrite no longer puts a deadline of a positive constant (at most a minute) from now on the socket")
+		}
+		if mark < 0 || mark < dl {
+			fail("boundWrite no longer sets the deadline before it marks it for clearing: a clearing can slip in between and the deadline stays on every later write")
+		}
+	}
+	if fd := p.decl("(*Conn).lockWrites"); fd == nil {
+		fail("(*Conn).lockWrites no longer resolves")
+	} else {
+		l := stmtTexts(p, fd.Body.List)
+		if len(l) != 2 || l[0] != "c.bwLck.Lock()" || l[1] != "ifatomic.CompareAndSwapInt32(&c.writeBounded,1,0){_=c.c.SetWriteDeadline(time.Time{})}" {
+			fail("lockWrites no longer takes the write lock and then clears a deadline that was meant for the previous write")
+		}
+	}
+	p.memo["ctxWaitsBounded"] = []interface{}{len(why) == 0, why}
+	return len(why) == 0, why
+}
+
 func ruleNoBlockingUnderCtx(p *Prog, r *Out) {
 	// which functions may block on the peer, and through what
 	why := map[*ssa.Function]string{}
@@ -731,12 +813,20 @@ func ruleNoBlockingUnderCtx(p *Prog, r *Out) {
 						continue
 					}
 					seen[key] = true
+					if bounded, _ := p.ctxWaitsBounded(); bounded && why[g] != "" && strings.Contains(why[g], "socket write") && !strings.Contains(why[g], "channel send") && !strings.Contains(why[g], "select with a send") {
+						r.ok(key, p.ipos(x), "socket write only, and every wait for the Ctx bounds it (Ctx.lock -> boundWrite)")
+						continue
+					}
 					r.check(why[g] == "", key, p.ipos(x), "callee cannot be stalled by the peer",
 						fmt.Sprintf("%s calls %s while it holds the request's Ctx, and that call can wait on the peer (%s): a server that stops reading (the write loop sticks in Flush and the outgoing queue fills) parks this goroutine with the Ctx locked, and the RoundTrip of that request, which must take the same mutex before it returns, hangs past MaxResponseTime", p.fname(f), p.fname(g), why[g]))
 				}
 				if direct {
 					sites++
 					key := fmt.Sprintf("%s writes to the socket holding Ctx.lck", p.fname(f))
+					if bounded, _ := p.ctxWaitsBounded(); bounded && !seen[key] {
+						seen[key] = true
+						r.ok(key, p.ipos(x), "every wait for the Ctx bounds the write (Ctx.lock -> boundWrite)")
+					}
 					if !seen[key] {
 						seen[key] = true
 						r.bad(key, p.ipos(x), fmt.Sprintf("%s calls %s while it holds the request's Ctx: a server that stops reading blocks the write with the Ctx locked, and the RoundTrip of that request, which must take the same mutex before it returns, hangs past MaxResponseTime", p.fname(f), name))
@@ -771,8 +861,13 @@ func ruleNoBlockingUnderCtx(p *Prog, r *Out) {
 			}
 		}
 	}
-	if cf := p.ssaFunc("(*Conn).Close"); cf != nil {
+	cf := p.ssaFunc("(*Conn).shut")
+	if cf == nil {
+		cf = p.ssaFunc("(*Conn).Close")
+	}
+	if cf != nil {
 		waits := ""
+		bounded, _ := p.ctxWaitsBounded()
 		for _, b := range cf.Blocks {
 			for _, x := range b.Instrs {
 				ci, ok := x.(ssa.CallInstruction)
@@ -782,7 +877,18 @@ func ruleNoBlockingUnderCtx(p *Prog, r *Out) {
 				if mfa, ok := ci.Common().Args[0].(*ssa.FieldAddr); ok {
 					mo, mf := p.fieldAddrName(mfa)
 					if w, ok := ioLocks[mo+"."+mf]; ok {
-						waits = mo + "." + mf + " (held across a socket write in " + w + ")"
+						// tolerable when the write that holds it has been given a deadline first
+						pre := false
+						for _, b2 := range cf.Blocks {
+							for _, y := range b2.Instrs {
+								if p.isCallTo(y, "(*Conn).boundWrite") && instrDominates(y, x) {
+									pre = true
+								}
+							}
+						}
+						if !(bounded && pre) {
+							waits = mo + "." + mf + " (held across a socket write in " + w + ")"
+						}
 					}
 				}
 			}
